@@ -19,6 +19,8 @@ import McpModel.Paginate.Props
 import McpModel.Negotiate.Props
 -- (Paginate/Negotiate drivers are roots of their own executables; two `main`s cannot be imported together)
 import McpModel.TypedTool.Props
+import McpModel.TypedTool.Bridge
+import McpModel.TypedTool.Sound
 import McpModel.Preflight.Props
 import McpModel.Preflight.Sound
 import McpModel.Preflight.Bridge
